@@ -3,6 +3,9 @@
 package connectconformance
 
 import (
+	"bytes"
+	"context"
+	"encoding/binary"
 	"encoding/json"
 	"errors"
 	"fmt"
@@ -105,7 +108,9 @@ func vfC04Check(c vfC04Case) error {
 		case "assert-fail":
 			results.assert(name, def, &conformancev1.ClientResponseResult{Payloads: []*conformancev1.ConformancePayload{{Data: []byte("other")}}})
 		case "client-error":
-			results.failed(name, &conformancev1.ClientErrorResult{Message: "client says no"})
+			// whatever the client wrote into the message - also nothing at all, or several lines - it reported an error
+			msgs := []string{"client says no", "", "\n", "  \r\n", "line one\nline two\n", "\tindented"}
+			results.failed(name, &conformancev1.ClientErrorResult{Message: msgs[(i+len(c.Rows))%len(msgs)]})
 		case "setup":
 			results.failedToStart([]*conformancev1.TestCase{def}, errors.New("error starting server: verif"))
 		case "could-not-run":
@@ -415,7 +420,7 @@ func vfFateCheck(c vfFateCase) error {
 			answerNo++
 		}
 		ran := t.Action != "none"
-		failed := t.Action == "deviate" || t.Action == "error" || t.Action == "feedback"
+		failed := t.Action == "deviate" || t.Action == "error" || t.Action == "error-empty" || t.Action == "feedback"
 		switch {
 		case !ran:
 			wantOK = false
@@ -461,7 +466,7 @@ func vfFateCheck(c vfFateCase) error {
 			if !received[names[i]] {
 				continue // which of the unsent cases are named depends on where the client died
 			}
-			failedCase := t.Action == "deviate" || t.Action == "error" || t.Action == "feedback"
+			failedCase := t.Action == "deviate" || t.Action == "error" || t.Action == "error-empty" || t.Action == "feedback"
 			// (a case that was handed over but never answered counts against success whatever its marking)
 			if (t.Marking == "none" && failedCase) || (t.Marking == "failing" && t.Action == "match") || t.Action == "none" {
 				if !strings.Contains(out, "FAILED: "+names[i]+":") && !strings.Contains(out, "FAILED: "+names[i]+" was") {
@@ -489,7 +494,7 @@ func TestVerifC04Fate(t *testing.T) {
 					continue
 				}
 				c.Tests = append(c.Tests, vfFateTest{
-					Action:  rapid.SampledFrom([]string{"match", "match", "match", "deviate", "error", "none", "feedback"}).Draw(t, "action"),
+					Action:  rapid.SampledFrom([]string{"match", "match", "match", "deviate", "error", "error-empty", "none", "feedback"}).Draw(t, "action"),
 					Marking: rapid.SampledFrom([]string{"none", "none", "failing", "flaky"}).Draw(t, "marking")})
 			}
 			switch rapid.IntRange(0, 5).Draw(t, "fate") {
@@ -550,7 +555,7 @@ func TestVerifC04FateTable(t *testing.T) {
 		return
 	}
 	var rows []vfFateCase
-	for _, action := range []string{"match", "deviate", "error", "none"} {
+	for _, action := range []string{"match", "deviate", "error", "error-empty", "none"} {
 		for _, marking := range []string{"none", "failing", "flaky"} {
 			for _, selfExit := range []bool{false, true} {
 				if action == "none" && !selfExit {
@@ -597,5 +602,124 @@ func TestVerifC04FateTable(t *testing.T) {
 		}(c)
 	}
 	wg.Wait()
+	en.Done(true)
+}
+
+// TestVerifC04Sideband: feedback from a reference server arrives on its stderr while the batch runs. Whatever the
+// shape of that stream - line terminated or cut off by the end of the stream, other output around it, one or several
+// lines for a case - a case with feedback counts against success and is named, cases without stay passes.
+// (fake server process and fake client of the C11 harness, real runTestCasesForServer and report)
+func TestVerifC04Sideband(t *testing.T) {
+	en := verifkit.NewEnum(t, "C04Sideband")
+	type row struct {
+		N        int    `json:"n"`
+		Target   int    `json:"target"`   // the case that draws feedback
+		Lines    int    `json:"lines"`    // feedback lines for it
+		Position string `json:"position"` // first, middle, last line of the stderr stream
+		FinalEOL bool   `json:"finalEOL"`
+		Marking  string `json:"marking"`
+	}
+	var rows []row
+	for _, n := range []int{1, 3} {
+		for target := 0; target < n; target += 2 {
+			for _, lines := range []int{1, 2} {
+				for _, pos := range []string{"first", "middle", "last"} {
+					for _, eol := range []bool{true, false} {
+						for _, marking := range []string{"none", "failing", "flaky"} {
+							rows = append(rows, row{n, target, lines, pos, eol, marking})
+						}
+					}
+				}
+			}
+		}
+	}
+	for _, r := range rows {
+		var testCases []*conformancev1.TestCase
+		expected := map[string]*conformancev1.ClientResponseResult{}
+		for i := 0; i < r.N; i++ {
+			exp := &conformancev1.ClientResponseResult{Payloads: []*conformancev1.ConformancePayload{{Data: []byte(fmt.Sprintf("payload-%d", i))}}}
+			testCases = append(testCases, &conformancev1.TestCase{Request: &conformancev1.ClientCompatRequest{TestName: vfC11Name(i)}, ExpectedResponse: exp})
+			expected[vfC11Name(i)] = exp
+		}
+		var fb []string
+		for l := 0; l < r.Lines; l++ {
+			fb = append(fb, fmt.Sprintf("%s: expected HTTP version %d; instead got 2", vfC11Name(r.Target), l+1))
+		}
+		noise := []string{"2024/01/01 12:00:00 http: TLS handshake error: EOF", "plain log line"}
+		var lines []string
+		switch r.Position {
+		case "first":
+			lines = append(append(lines, fb...), noise...)
+		case "middle":
+			lines = append(append(append(lines, noise[0]), fb...), noise[1])
+		default:
+			lines = append(append(lines, noise...), fb...)
+		}
+		stderr := strings.Join(lines, "\n")
+		if r.FinalEOL {
+			stderr += "\n"
+		}
+		resp, _ := proto.Marshal(&conformancev1.ServerCompatResponse{Host: "127.0.0.1", Port: 1})
+		var frame bytes.Buffer
+		var l [4]byte
+		binary.BigEndian.PutUint32(l[:], uint32(len(resp)))
+		frame.Write(l[:])
+		frame.Write(resp)
+		proc := &vfFakeProc{done: make(chan struct{})}
+		starter := processStarter(func(ctx context.Context, _ bool) (*process, error) {
+			return &process{processController: proc, stdin: &vfFakeStdin{}, stdout: bytes.NewReader(frame.Bytes()), stderr: strings.NewReader(stderr)}, nil
+		})
+		var failing, flaky []string
+		switch r.Marking {
+		case "failing":
+			failing = []string{vfC11Name(r.Target)}
+		case "flaky":
+			flaky = []string{vfC11Name(r.Target)}
+		}
+		results := newResults(r.N, vfTrieOrEmpty(failing), vfTrieOrEmpty(flaky), nil)
+		client := &vfFakeClient{c: vfC11Case{N: r.N, Delivery: "sync"}, expected: expected}
+		done := make(chan struct{})
+		go func() {
+			defer close(done)
+			runTestCasesForServer(context.Background(), false, true, serverInstance{}, testCases, nil, nil, starter, &vfC11Printer{}, &vfC11Printer{}, results, client, nil, false)
+		}()
+		var viol error
+		select {
+		case <-done:
+		case <-time.After(30 * time.Second):
+			viol = verifkit.Violf("sideband-hang", "batch did not end: %+v", r)
+		}
+		if viol == nil {
+			printer := &vfC11PrinterLite{}
+			ok := results.report(printer)
+			out := strings.Join(printer.lines, "\n")
+			name := vfC11Name(r.Target)
+			// unmarked: the feedback is a failure; known-failing / flaky: it failed as expected (and the run succeeds)
+			wantOK := r.Marking != "none"
+			switch {
+			case ok != wantOK:
+				viol = verifkit.Violf(fmt.Sprintf("sideband-verdict:%v-want-%v", ok, wantOK), "report() = %v although %q drew feedback on the server's stderr (%+v)\nstderr: %q\noutput:\n%s", ok, name, r, stderr, out)
+			case r.Marking == "none" && !strings.Contains(out, "FAILED: "+name+":"):
+				viol = verifkit.Violf("sideband-unnamed", "%q drew feedback but no FAILED line names it (%+v)\noutput:\n%s", name, r, out)
+			case r.Marking != "none" && !strings.Contains(out, "INFO: "+name+" "):
+				viol = verifkit.Violf("sideband-unnamed", "%q drew feedback and is marked %s but no INFO line names it (%+v)\noutput:\n%s", name, r.Marking, r, out)
+			default:
+				for l := 0; l < r.Lines; l++ {
+					if !strings.Contains(out, fmt.Sprintf("expected HTTP version %d; instead got 2", l+1)) {
+						viol = verifkit.Violf("sideband-line-lost", "feedback line %d of %d for %q is not in the report (%+v)\noutput:\n%s", l+1, r.Lines, name, r, out)
+					}
+				}
+				for i := 0; i < r.N; i++ {
+					if i != r.Target && strings.Contains(out, "FAILED: "+vfC11Name(i)+":") {
+						viol = verifkit.Violf("sideband-misattributed", "case %d has no feedback but is reported FAILED (%+v)\noutput:\n%s", i, r, out)
+					}
+				}
+			}
+		}
+		en.Rec.Observe(r, []string{"position:" + r.Position, fmt.Sprintf("finalEOL:%v", r.FinalEOL), "marking:" + r.Marking}, !r.FinalEOL || r.Lines > 1)
+		if viol != nil && en.Fail(r, viol) {
+			break
+		}
+	}
 	en.Done(true)
 }
